@@ -57,6 +57,36 @@ impl Default for Config {
     }
 }
 
+#[cfg(p2panda_p2panda_verif)]
+impl Config {
+    /// Verification-only constructor (fields are private).
+    pub fn verif_new(
+        initial_value: Duration,
+        min_increment: Duration,
+        max_increment: Duration,
+        max_value: Duration,
+        min_reset: Duration,
+        max_reset: Duration,
+    ) -> Self {
+        Self {
+            initial_value,
+            min_increment,
+            max_increment,
+            max_value,
+            min_reset,
+            max_reset,
+        }
+    }
+}
+
+#[cfg(p2panda_p2panda_verif)]
+impl Backoff {
+    /// Verification-only read access to the current backoff delay.
+    pub fn verif_value(&self) -> Duration {
+        self.value
+    }
+}
+
 impl Backoff {
     pub fn new(config: Config, rng: ChaCha20Rng) -> Self {
         let mut backoff = Self {
